@@ -20,6 +20,32 @@ const POINTS: [&str; 4] = ["history.write", "history.read", "server.updated", "s
 
 fn gen(rng: &mut Rng, tier: &str) -> Vec<(String, Value)> {
     let mut cases = Vec::new();
+    // boundary classes of advance_created's case split (seconds of the clock reading <, =, > seconds of the current
+    // creation time) at the install and at the mark_update_done of the second and third cycle: the creation time is
+    // ahead of the clock after two readings within one second
+    {
+        let a = json!({"origins": [["10.0.0.0/8", 24, 64500]], "keys": [], "aspas": []});
+        let b = json!({"origins": [["10.0.0.0/8", 24, 64501]], "keys": [], "aspas": []});
+        let c = json!({"origins": [["10.0.0.0/8", 24, 64502]], "keys": [], "aspas": []});
+        let s: i64 = 1_800_000_100_000_000_000;
+        let ms: i64 = 1_000_000;
+        // offsets (ns) of the six clock readings: install1, done1, install2, done2, install3, done3
+        let plans: Vec<(&str, [i64; 6])> = vec![
+            ("clock.all_in_one_second", [100 * ms, 200 * ms, 300 * ms, 400 * ms, 500 * ms, 600 * ms]),
+            ("clock.install_behind_created", [100 * ms, 900 * ms, 950 * ms, 1_100 * ms, 1_150 * ms, 1_200 * ms]),
+            ("clock.whole_seconds", [0, 1_000 * ms, 1_000 * ms, 2_000 * ms, 2_000 * ms, 3_000 * ms]),
+            ("clock.steps_back", [5_000 * ms, 5_100 * ms, 3_000 * ms, 3_100 * ms, 1_000 * ms, 1_100 * ms]),
+            ("clock.same_second_then_later", [100 * ms, 200 * ms, 300 * ms, 5_000 * ms, 5_100 * ms, 9_000 * ms]),
+        ];
+        for (name, o) in plans {
+            let cycles = json!([
+                {"data": a, "outcome": 0, "t_upd": s + o[0], "t_done": s + o[1]},
+                {"data": b, "outcome": 0, "t_upd": s + o[2], "t_done": s + o[3]},
+                {"data": c, "outcome": 0, "t_upd": s + o[4], "t_done": s + o[5]},
+            ]);
+            cases.push((name.to_string(), json!({"keep": 3, "cycles": cycles})));
+        }
+    }
     let n = if tier == "thorough" { 120 } else { 24 };
     for i in 0..n {
         let mut r = rng.fork();
